@@ -58,10 +58,15 @@ func VerifC13_RefreshLoop() {
 		lastGood = l.Time
 	}
 	for i := 0; i < nticks; i++ {
-		if verifrt.Bool("longPause") {
-			now = now.Add(30 * time.Minute) // e.g. the host was suspended
-		} else {
+		// the next tick comes after 5 minutes, after 20 minutes (ticks dropped while the goroutine was
+		// busy; still younger than refreshabilityTimeout) or after 30 minutes (host suspended)
+		switch k := verifrt.Int("pause", 0, 2); {
+		case k == 0:
 			now = now.Add(5 * time.Minute)
+		case k == 1:
+			now = now.Add(20 * time.Minute)
+		default:
+			now = now.Add(30 * time.Minute)
 		}
 		// like the monitor goroutine, the harness is always ready to take a refresh notification
 		for sent := false; !sent; {
@@ -72,12 +77,14 @@ func VerifC13_RefreshLoop() {
 				onNotify()
 			}
 		}
-	}
-	// let the last tick be processed: the goroutine is either back in its select or offers a notification
-	select {
-	case <-refreshed:
-		onNotify()
-	default:
+		// the clock stands still until the tick has been processed: the goroutine is either back in
+		// its select or offers a notification
+		verifrt.Settle()
+		select {
+		case <-refreshed:
+			onNotify()
+		default:
+		}
 	}
 	u.cancel()
 	wg.Wait()
